@@ -712,8 +712,8 @@ def rule_C(ctx):
     """C03.C comparison operators on all field-wise orderings"""
     c = ctx.prog.cls(CLS)
     methods = {}
-    for name in ('__lt__', '__gt__', '__le__', '__ge__', '__eq__', '__ne__'):
-        if name in c.methods:
+    for name in c.methods:
+        if name not in ('__init__',):
             fn = c.methods[name].node
             methods[name] = ast.FunctionDef(name=fn.name, args=fn.args, body=body_nodocstring(c.methods[name]),
                                             decorator_list=[], lineno=fn.lineno)
@@ -722,7 +722,8 @@ def rule_C(ctx):
             raise anchor_error('ObsTime.%s not found' % need, CLS)
     import itertools
     total = 0
-    bad = {k: [] for k in methods}
+    CMP = [k for k in ('__lt__', '__gt__', '__le__', '__ge__', '__eq__', '__ne__') if k in methods]
+    bad = {k: [] for k in CMP}
     for combo in itertools.product((0, 1, 2), repeat=len(FIELDS)):
         a = orders.Obj({f: 1 for f in FIELDS}, methods)
         b = orders.Obj({f: v for f, v in zip(FIELDS, combo)}, methods)
@@ -733,7 +734,7 @@ def rule_C(ctx):
         want = {'__lt__': ta < tb, '__gt__': ta > tb, '__le__': ta <= tb, '__ge__': ta >= tb,
                 '__eq__': ta == tb, '__ne__': ta != tb}
         total += 1
-        for name in methods:
+        for name in CMP:
             try:
                 got = a.call(name, b)
             except orders.Unsupported as e:
@@ -742,7 +743,30 @@ def rule_C(ctx):
                 if len(bad[name]) < 3:
                     bad[name].append({'self': dict(zip(FIELDS, ta)), 'other': dict(zip(FIELDS, tb)),
                                       'returned': bool(got), 'order of the instants says': want[name]})
-    for name in methods:
+    # carry cases: real field values at the ends of their ranges - field i one step apart, every less significant field at the
+    # opposite extreme (31 January 23:59:59.999 < 1 February 00:00:00.000).  Code that orders through comparisons only passes these
+    # with the rank cases; code that packs the fields into one number passes exactly when every radix covers the range below it.
+    RANGES = {'year': (1970, 2100), 'month': (1, 12), 'day': (1, 31), 'hour': (0, 23), 'min': (0, 59), 'sec': (0, 59), 'ms': (0, 999)}
+    for i, fld in enumerate(FIELDS[:-1]):
+        for base in (RANGES[fld][0], RANGES[fld][1] - 1):
+            fa_ = {f: RANGES[f][0] for f in FIELDS[:i]}
+            fb_ = dict(fa_)
+            fa_[fld], fb_[fld] = base, base + 1
+            for f in FIELDS[i + 1:]:
+                fa_[f], fb_[f] = RANGES[f][1], RANGES[f][0]
+            for x, y, lt in ((fa_, fb_, True), (fb_, fa_, False)):
+                a = orders.Obj(dict(x, zone=0), methods)
+                b = orders.Obj(dict(y, zone=0), methods)
+                want = {'__lt__': lt, '__gt__': not lt, '__le__': lt, '__ge__': not lt, '__eq__': False, '__ne__': True}
+                total += 1
+                for name in CMP:
+                    try:
+                        got = a.call(name, b)
+                    except orders.Unsupported as e:
+                        raise shape_error('ObsTime.%s not interpretable: %s' % (name, e), c.methods[name].loc())
+                    if bool(got) != want[name] and len(bad[name]) < 3:
+                        bad[name].append({'self': x, 'other': y, 'returned': bool(got), 'order of the instants says': want[name]})
+    for name in CMP:
         ctx.check(not bad[name], 'C03.C', c.methods[name],
                   'ObsTime.%s agrees with chronological (most-significant-field-first) order on all %d field-wise '
                   'orderings of two timestamps' % (name, total),
